@@ -63,38 +63,48 @@ AX_RE = re.compile(r"'(\S+)' depends on axioms: \[([^\]]*)\]")
 NOAX_RE = re.compile(r"'(\S+)' does not depend on any axioms")
 
 
+def audit_files(prop: str):
+    """Audit/<prop>.lean plus optional continuation files Audit/<prop>b.lean, <prop>c.lean …"""
+    d = common.LEAN / "ISnap" / "Audit"
+    return [f for f in sorted(d.glob(f"{prop}*.lean")) if re.fullmatch(rf"{prop}[a-z]?\.lean", f.name)]
+
+
 def audit(prop: str):
     """-> (dict theorem -> sorted axioms, raw output, ok flag)"""
-    f = common.LEAN / "ISnap" / "Audit" / f"{prop}.lean"
-    if not f.exists():
-        return {}, f"no audit file {f}", False
-    rc, out, _dt = lake(["env", "lean", str(f.relative_to(common.LEAN))], timeout=900)
-    out1 = " ".join(out.split())
-    res = {}
-    for m in AX_RE.finditer(out1):
-        res[m.group(1)] = sorted(a.strip() for a in m.group(2).split(",") if a.strip())
-    for m in NOAX_RE.finditer(out1):
-        res[m.group(1)] = []
-    return res, out, rc == 0
+    files = audit_files(prop)
+    if not files:
+        return {}, f"no audit file for {prop}", False
+    res, raw, ok = {}, "", True
+    for f in files:
+        rc, out, _dt = lake(["env", "lean", str(f.relative_to(common.LEAN))], timeout=900)
+        raw += out
+        ok = ok and rc == 0
+        out1 = " ".join(out.split())
+        for m in AX_RE.finditer(out1):
+            res[m.group(1)] = sorted(a.strip() for a in m.group(2).split(",") if a.strip())
+        for m in NOAX_RE.finditer(out1):
+            res[m.group(1)] = []
+    return res, raw, ok
 
 
 def theorem_names(prop: str):
-    """theorems the property claims = every `#print axioms X` line of its audit file"""
-    f = common.LEAN / "ISnap" / "Audit" / f"{prop}.lean"
-    if not f.exists():
-        return []
-    return re.findall(r"^#print axioms\s+(\S+)", f.read_text(), re.M)
+    """theorems the property claims = every `#print axioms X` line of its audit file(s)"""
+    names = []
+    for f in audit_files(prop):
+        names += re.findall(r"^#print axioms\s+(\S+)", f.read_text(), re.M)
+    return names
 
 
 def statements(prop: str):
-    """statement text of the property's theorems, read from Props/<prop>.lean (for the evidence)"""
-    f = common.LEAN / "ISnap" / "Props" / f"{prop}.lean"
-    if not f.exists():
-        return {}
-    text = f.read_text()
+    """statement text of the property's theorems, read from Props/<prop>[b…].lean (for the evidence)"""
     out = {}
-    for m in re.finditer(r"^theorem\s+(\S+)(.*?):=", text, re.M | re.S):
-        out[m.group(1)] = " ".join(m.group(2).split())[:600]
+    d = common.LEAN / "ISnap" / "Props"
+    for f in sorted(d.glob(f"{prop}*.lean")):
+        if not re.fullmatch(rf"{prop}[a-z]?\.lean", f.name):
+            continue
+        text = f.read_text()
+        for m in re.finditer(r"^theorem\s+(\S+)(.*?):=", text, re.M | re.S):
+            out[m.group(1)] = " ".join(m.group(2).split())[:600]
     return out
 
 
@@ -140,7 +150,8 @@ def run(prop: str, thorough: bool = False):
         else:
             res["discharged"] += 1
     if thorough and not res["failed"]:
-        rc, out, dt = lake(["env", "leanchecker", f"ISnap.Props.{prop}"], timeout=1500)
+        mods = [f"ISnap.Props.{f.stem}" for f in audit_files(prop)]
+        rc, out, dt = lake(["env", "leanchecker", *mods], timeout=1500)
         res["leanchecker"] = {"rc": rc, "s": round(dt, 1), "tail": out[-300:]}
         if rc != 0:
             res["failed"].append("<leanchecker>")
